@@ -88,6 +88,13 @@ CHECKS = {
         bounds=dict(quick="capacity 1..4, values {1,2,9}; io histories to depth 6", thorough="capacity 1..5; io histories to depth 8"),
         assumptions=["values outside the alphabet behave like those inside (the buffer is parametric in T)", "io BFS is depth-bounded (reported as a cap); the buffer BFS is complete for each capacity"],
     ),
+    "C18": dict(
+        families=lambda tier: [fam("api"), fam("instr")],
+        wall_cap=dict(quick=600, thorough=7200),
+        rule="(api) explicit-state BFS over the Graph API: add_node (2 states), remove_node, add_edge, remove_edge, set_state, set_weight, clone-snapshot, with ids ranging over live ids, stale ids, 0 and a never-issued id; node ids made deterministic per history (hook H6); after EVERY transition: every edge connects two existing nodes, at most one edge per ordered pair, nodes/states/edges/weights, node_size, edge_size, get_state, get_weight and filter (as sets) equal a set-based model, an earlier clone is unchanged, diff(snapshot, current) is None exactly when the model says equal; (instr) BFS over GRAPH.* instruction histories by NAME through step (operands supplied per action from the id classes live/stale/0/-1/99/MAX, states, weights, filters, history positions -1..2,500) against the reference rows, query results compared as sets, GRAPH.DUP snapshots below the top never change, plus the 101-fold GRAPH.DUP history on the capacity-100 stack",
+        bounds=dict(quick="api: depth 7, <=4 nodes created, <=3 alive; instr: depth 6, <=3 graphs", thorough="api: depth 9; instr: depth 8"),
+        assumptions=["HashMap iteration order is not observed: query results are compared as sets"],
+    ),
     "C19": dict(
         families=lambda tier: [fam("addset", shards=8, crumbs=True), fam("access", shards=2, crumbs=True)],
         rule="(addset) every stack-id vector up to length K over the 12 stack ids and the invalid ids 0, 13, -1, on a fully and a half populated state: LIST.ADD (reference row + conservation of the multiset of atoms over all stacks and record contents + LIST.GET followed by step* puts the literal items back in their original order and leaves the record), LIST.SET x CODE depth 0..3 x position in {-1,0,1,2,3,MAX} (exactly the addressed record changes, nothing is lost); (access) LIST.REMOVE / LIST.GET / LIST.BVAL / IVAL / FVAL over CODE stacks of 0..4 items (nested records, empty list, atom, NaN) x positions {MIN,-1..3,MAX} x n in {MIN,-1,0,1,2,5,MAX}; all by NAME through step against the reference rows",
